@@ -61,7 +61,11 @@ func (s *vstore) DeleteEntry(ctx context.Context, p util.FullPath) error {
 	if s.down {
 		return errDown
 	}
-	return s.FilerStore.DeleteEntry(ctx, p)
+	err := s.FilerStore.DeleteEntry(ctx, p)
+	if err == nil {
+		afterStoreDelete(s, p)
+	}
+	return err
 }
 func (s *vstore) DeleteFolderChildren(ctx context.Context, p util.FullPath) error {
 	if s.down {
